@@ -720,7 +720,10 @@ def run_line(line):
         pysteps = 0
         revisit = False
         mudec = True
-        last_mu = sx.mu(last)
+        try:
+            last_mu = sx.mu(last)
+        except sx.TooBig:
+            last_mu = None
         while not cur._is_fully_reduced and pysteps < 300000:
             cur = cur._take_reduction_step()
             pysteps += 1
@@ -731,8 +734,11 @@ def run_line(line):
                 if s_ in seen:
                     revisit = True
                 seen.add(s_)
-                m_ = sx.mu(t)
-                if not m_ < last_mu:
+                try:
+                    m_ = sx.mu(t) if last_mu is not None else None
+                except sx.TooBig:
+                    m_ = None
+                if m_ is not None and last_mu is not None and not m_ < last_mu:
                     mudec = False
                 last, last_s, last_mu = t, s_, m_
         if cmd == 'STEPCOUNT':
@@ -824,6 +830,17 @@ def run_line(line):
     if cmd == 'TRACE':
         return 'SKIP'
     return 'ERROR command ' + cmd
+
+
+_run_line_inner = run_line
+
+
+def run_line(line):   # noqa: F811
+    try:
+        return _run_line_inner(line)
+    except OverflowError:
+        # only the step-driving commands let an exception escape: a folded constant left the double range
+        return 'PYERR OverflowError'
 
 
 def main():
